@@ -7,6 +7,7 @@ V: Trace_Origin validates recorded pad/unpad calls for every length and recorded
    issuer histories (look-alike origins registered, real requests evaluated):
    logged request size = WireSize(Blocks(len)), served iff registered."""
 import vlib
+from checks import neighbours_common as nb
 from checks import ages_common as ag
 from checks import verdicts_common as vc
 from checks import c04
@@ -23,7 +24,9 @@ def run(ctx):
     vn, vcases, vdepth = vc.run(ctx, ["rlorigins"])   # Verdicts.tla: one issuer, every history of requests for look-alike names
     hist = [c for c in cases if c["op"] == "Hist"]
     an, acases = ag.run(ctx, ['rlmany', 'rlrare'])   # Ages.tla: every schedule of phases on one long-lived object, each phase scaled to n operations
+    nn, ncases = nb.run(ctx)   # Neighbours.tla: every history of registrations, look-ups and requests on two issuers side by side
     return ctx.finish({
+        **nb.coverage(nn, ncases),
         **ag.coverage(an, acases),
         "traces_validated_against_impl": len(hist),
         "events_validated": n,
@@ -44,6 +47,8 @@ def run(ctx):
 
 
 def replay(ctx, path):
+    if vlib.json.load(open(path)).get("family") == "neighbours":
+        return nb.replay(ctx, path)
     if vlib.json.load(open(path)).get("family") == "ages":
         return ag.replay(ctx, path)
     if vlib.json.load(open(path)).get("family") == "verdicts":
